@@ -13,19 +13,19 @@ TABLE = {
             'call-graph fix-point from the socket-driven slots (signal/slot, timer and continuation edges resolved) shows that every site '
             'installing an authentication/bind/sm listener or opening the session, and every function writing a credential/bind/stanza '
             'payload to the socket, is unreachable in that state; inbound stanza dispatch is unreachable in that state; the legacy-auth '
-            'digest/plain choice is evaluated for all offers x configurations. Universal over server behaviour for the code shape, which a test cannot be. The predicate the gates consult must be the live QSslSocket state, a wrapper of it, or a cached flag that every new connection clears.',
+            'digest/plain choice is evaluated for all offers x configurations. Universal over server behaviour for the code shape, which a test cannot be. The predicate the gates consult must be the live QSslSocket state, a wrapper of it, or a cached flag that every new connection clears. The pre-TLS dispatch gate is evaluated for a stanza in its own namespace and for one smuggled into the stream namespace.',
             'Decides code shape only: trusts QSslSocket::isEncrypted(), the clang front end and the Qt signal/slot contract; application calls into the '
             'send API before connected() are outside the quantifier.', 'DESIGN.md §2 C04'),
     'C11': ('abstract evaluation of both carbon handlers for a foreign outer sender (sink reachability over the clang CFG) + def-use provenance of the presented message',
             'Static: for QXmppCarbonManager and QXmppCarbonManagerV2 the handler is explored with the comparison "outer from == configuration().jidBare()" '
             'bound to false and every other condition unknown; no signal emission, message injection, look into <forwarded/> or inner parse is reachable and '
             'every exit returns false. Weakenings (extra disjunct, prefix/bare/case-insensitive comparison, inner sender) leave the comparison unbound and are '
-            'reported. The presented object is proven (def-use over all definitions) to be parsed from carbons/forwarded/message of parameter 0 and flagged forwarded.',
+            'reported. The presented object is proven (def-use over all definitions) to be parsed from carbons/forwarded/message of parameter 0 and flagged forwarded. No client-side function rewrites the from/to of a received element.',
             'Trusts QString ==/!= to be exact; value-level facts about jidBare() for degenerate configurations are not decided.', 'DESIGN.md §2 C11'),
     'C12': ('who-may-write analysis of the roster cache fields + abstract evaluation of the push handler for a foreign sender + control-dependence of remove/insert + session-boundary must-call',
             'Static: every write to the cached roster map is enumerated over the whole unit (whole library in thorough) and must sit in the push arm, the roster-result '
             'continuation or clear(); handleStanza is explored for "from non-empty and bare(from) != own bare": parse, acknowledgement and mutations unreachable, returns false; '
-            'remove/insert are control-dependent on the item subscription type inside one loop under case Set; new (non-resumed) sessions clear before any use; presence table writers and their cases are fixed.',
+            'remove/insert are control-dependent on the item subscription type inside one loop under case Set; new (non-resumed) sessions clear before any use; presence table writers and their cases are fixed. The entry stored for a push is the pushed item itself; ResumedStream cannot be a leftover of an earlier session.',
             'History-level equality of the view with "last roster + pushes in order" is not decided (reachability over states, not code shape).', 'DESIGN.md §2 C12'),
     'C16': ('control dependence of every identity write + abstract evaluation of the server-side stanza handler for unauthenticated / spoofing senders + closed writer/caller sets of the routing tables',
             'Static: every assignment to the per-connection jid must be control-dependent on respond()==Succeeded or the password reply being NoError and be built from '
@@ -35,7 +35,7 @@ TABLE = {
     'C17': ('control-dependence region map of every message field in the one writer and the one reader (who-is-written-under-which-mode-guard) + compile-time witness of the mode predicate',
             'Static: each QXmppMessagePrivate field read in serializeExtensions / written in parseExtension is assigned the mode guard it is control-dependent on; the conversational '
             'fields named by the property may only appear under the Sensitive guard (a leak is one element outside its guard, visible as region membership for every message at once), '
-            'each field in exactly one part, writer and reader agree; operator&(SceMode,SceMode) is decided by the compiler for all 9 pairs; the encrypted send path passes the constant ScePublic. The encrypted message is never handed to the wire as an object (which would serialize it with SceAll).',
+            'each field in exactly one part, writer and reader agree; operator&(SceMode,SceMode) is decided by the compiler for all 9 pairs; the encrypted send path passes the constant ScePublic. The encrypted message is never handed to the wire as an object (which would serialize it with SceAll). The pass driver parseExtensions writes no field owned by one part outside the matching mode guard.',
             'Value-level recovery of every field after the two-pass parse and unknown application extensions are not decided; OMEMO code is not part of the configured build.', 'DESIGN.md §2 C17'),
     'C05': ('compile-time witness (1444 static_asserts over every ordered pair of the finite mechanism universe, decided by g++ with the project flags) + structural rules on the chooser over the clang AST',
             'Static: the strength order used by std::ranges::max is std::variant\'s operator< on the mechanism type; it is constexpr, so the compiler decides, for all 38x38 ordered pairs, that it agrees with '
@@ -46,57 +46,57 @@ TABLE = {
     'C01': ('writer/reader name-agreement analysis over all ~144 codec classes (resolved QXmlStreamWriter/QDom call facts per class closure), table/enumerator and toString/fromString sibling agreement, typed-helper bounds, single-consumption and escaping (who-may-write-raw) rules',
             'Static, structural necessary conditions of round-trip identity for every codec class at once: names written from fields ⊆ names read; root written = root accepted; enum tables match enumerators and no reachable '
             'index is out of range; every string a toString can produce is accepted by its fromString; stringToInt<T> uses T\'s own limits; typed children are not re-captured generically; values reach the output only '
-            'through escaping QXmlStreamWriter calls and element/attribute names are never free text. It found four genuine round-trip defects the 388 test rows miss.',
+            'through escaping QXmlStreamWriter calls and element/attribute names are never free text. It found four genuine round-trip defects the 388 test rows miss. Also: parsers use no descendant-axis look-ups (one listed, reasoned exception), and the sign of a formatted time-zone offset is decided on the whole value.',
             'Does not decide value-level equality after a round trip (dates, base64, whitespace, numeric formatting), optional-field combinations or sibling order; element names are matched class-wide (a reader that '
             'iterates over all children accepts any child name).', 'DESIGN.md §2 C01'),
     'C02': ('definite-initialisation analysis of scalar members at every creation site (with constructor / setter / parse must-assign summaries), int-to-enum cast guard check, intraprocedural taint from parsed text and wire integers to size/index/loop sinks, single-consumption rule; positive controls',
             'Static: for every value record of the library each scalar member without default initialiser must be initialised by every user constructor or assigned on every path after each default-initialising '
             'creation (found 8 indeterminate members, 7 demonstrated with perturbed memory); integers become enums only behind a check of that integer; sizes, indices and loop bounds derived from attributes, '
-            'text or QDataStream reads are dominated by a bound (16-bit wire lengths bound allocations by type); typed children are not re-captured (fix-point). Zero-expected rules must fire on controls/c02_controls.cpp on every run. Also: every DOM sibling loop guarded by isNull() advances its node on every path back to the loop head (termination of the list parsers).',
+            'text or QDataStream reads are dominated by a bound (16-bit wire lengths bound allocations by type); typed children are not re-captured (fix-point). Zero-expected rules must fire on controls/c02_controls.cpp on every run. Also: every DOM sibling loop guarded by isNull() advances its node on every path back to the loop head (termination of the list parsers). Also: no value flows between sibling parse arms of a per-child dispatch, no counting loop runs up to a caller-supplied unsigned bound with <=, and objects collected by a parse loop are fresh in every iteration.',
             'Absence of crashes/UB in general, termination and memory bounds for deeply nested input, and value-level idempotence are not decided (need execution under sanitizers); QObject-derived classes are excluded from R1.', 'DESIGN.md §2 C02'),
     'C03': ('dataflow from socket reads to byte-to-text decoders in every readyRead slot + must-clear of all receive-state members in the stream-restart slots',
             'Static: a value derived from readAll()/read() may not reach a stateless decoder (QString::fromUtf8 etc.) except from a member accumulator decoded up to a computed boundary, or through a stateful decoder member; '
             'all receive-state members (discovered as the text/byte members written by the receive path) are cleared before started() in both restart slots. This is the structural necessary condition that the one '
-            'hand-picked ASCII split of the test-suite cannot probe (found and fixed: per-read stateless UTF-8 decoding). Also: the chunk of one read is only appended (no decision, log or event of processData looks at it), and the byte comparisons of the hand-written complete-character boundary separate the five UTF-8 byte classes.',
+            'hand-picked ASCII split of the test-suite cannot probe (found and fixed: per-read stateless UTF-8 decoding). Also: the chunk of one read is only appended (no decision, log or event of processData looks at it), and the byte comparisons of the hand-written complete-character boundary separate the five UTF-8 byte classes. The events parsed from one buffer are emitted in document order (open, stanzas, close) on every path.',
             'That the accumulate/wrap/DOM-parse strategy yields the same event sequence for every partition (regex anchoring, keep-alives, \'>\' in attribute values) is behaviour of QRegularExpression/QDomDocument on runtime strings and is not decided.', 'DESIGN.md §2 C03'),
     'C06': ('abstract evaluation of the SCRAM and DIGEST-MD5 client step functions under hostile server inputs (sink reachability per step) + dominance of the success report by a mechanism check + def-use roles of the key labels',
             'Static, refusal half only: for "nonce does not extend ours", "empty salt", "0 iterations" no PBKDF2/HMAC/hash call and no response is reachable; a wrong server signature / rspauth cannot yield a result; every accepting '
             'path advances the step counter and steps past the end are refused; the SASL and SASL 2 managers may complete with success only behind a check on the mechanism object and must hand success data to it (found the early-<success/> defect, '
-            'fixed); proof derives from "Client Key", stored signature from "Server Key", one hash algorithm source.',
+            'fixed); proof derives from "Client Key", stored signature from "Server Key", one hash algorithm source. A challenge the mechanism rejects ends the exchange on every path.',
             'That the response bytes equal what RFC 5802/2831/HT prescribe for all credentials, salts and nonces (normalisation, quoting grammar) is a value-level claim needing an independent implementation at run time: not decided.', 'DESIGN.md §2 C06'),
     'C07': ('typestate path exploration (finish/erase pairing on the request table; promise must-complete over every function and continuation holding a QXmppPromise, with latch and zero-iteration handling) + abstract evaluation of the reply handler per hostile reply + must-call of cancellation on session ends',
             'Static: on every path of handleStanza/finish/cancelAll a completion is followed by the erase of that entry and nothing is erased uncompleted; the table has a closed writer set; for each hostile reply class (not <iq/>, request-typed, '
             'unknown id, foreign non-empty from) no completion or erase is reachable and false is returned; requests need a valid unused id and an addressee; destructor, non-resumed session open and non-resumable close cancel everything; '
-            'every function/lambda holding a promise finishes it once or hands it on on all paths (85 holders; zero-iteration loops checked; found and fixed the MAM empty-page hang).',
+            'every function/lambda holding a promise finishes it once or hands it on on all paths (85 holders; zero-iteration loops checked; found and fixed the MAM empty-page hang). A request is registered before it is sent; the "stream resumed" flag consulted at session start is reset for every new stream.',
             'Interleavings of several outstanding requests with reconnects, completion order, and that a remote entity ever replies are history-level and not decided; latch arithmetic is trusted; negotiation-internal promises are left to C10.', 'DESIGN.md §2 C07'),
     'C08': ('exhaustive path exploration of all 17 handleStanza overrides per IQ type with reply counting through same-file helpers, continuations and the verified typed-helper summary; fall-back and helper contracts checked separately',
             'Static, decided at path level for the code in /repo/src/client: for each extension and each IQ type (get/set/result/error) every path that claims the stanza must have sent exactly one result/error IQ for a request (or stored the request id for a deferred reply) '
             'and nothing for a response; predicates over the element are folded under the abstract type, repeated predicates are correlated; the typed helper (handleIqRequests/handleIqType/processHandleIqResult/sendIqReply/checkIsIqRequest) is verified to mean "true => replied exactly once"; '
-            'both fall-backs answer get/set once with the request id/sender and stay silent for result/error. Found 9 managers swallowing requests or answering responses (13 concrete inputs replayed), all fixed.',
+            'both fall-backs answer get/set once with the request id/sender and stay silent for result/error. Found 9 managers swallowing requests or answering responses (13 concrete inputs replayed), all fixed. The element predicate of every payload class served by the typed helper accepts exactly what the helper handles, and the helper addresses the reply with the id and sender of the request.',
             'What applications or third-party extensions do in their own handleStanza or in slots of emitted signals, and whether a reply\'s content is right, are outside the analysis.', 'DESIGN.md §2 C08'),
     'C09': ('typestate/path exploration of the five functions that touch the unacknowledged-stanza map, abstract evaluation per (enabled, stanza) and per received tag, call-order and who-may-write rules',
             'Static: "acknowledged" is constructed only under key <= h with report/erase paired per entry; internalSend stores (key ++counter) iff enabled && stanza and otherwise reports exactly once, for all 4 combinations; '
             'onResumed drops the prefix covered by resumed.h before resending without renumbering and enable renumbers from a saved copy after zeroing both counters; both negotiation routes (nonza handler and SASL2/bind2 inline) reach them; '
-            'the inbound counter changes by exactly 1 for message/presence/iq and 0 for <a/>, <r/> and other nonzas, has two writers, and is what <a/> and <resume/> carry. <resumed h/> takes effect although stream management is re-enabled only afterwards, and no consumer of a received stanza runs before the inbound counter.',
+            'the inbound counter changes by exactly 1 for message/presence/iq and 0 for <a/>, <r/> and other nonzas, has two writers, and is what <a/> and <resume/> carry. <resumed h/> takes effect although stream management is re-enabled only afterwards, and no consumer of a received stanza runs before the inbound counter. Every counter of the acknowledgement manager restarts with a fresh session.',
             'History-level statements (exactly the uncovered stanzas are resent for every sequence of sends, acks and losses; counter wrap) need a model of histories and are not decided.', 'DESIGN.md §2 C09'),
     'C10': ('effect analysis (write set of everything reachable from the negotiation handlers vs must-reset sets of the stream-start / disconnect / close paths, with explicit persistent / set-before-use / consumed-on-use tables) + closed writer sets and must-call on the disconnect paths',
             'Static: each of the 27 per-connection leaf fields written during negotiation (continuations included) must be reset on every path of handleStart, of the socket restart slots, of _q_socketDisconnected or of closeSession, or be set from the stream features before every use, '
             'or be consumed where it is used, or be in the persistent table with a reason (found and fixed: bind2Bound leaking into the next attempt); sessionStarted/connected only in openSession whose call sites are last steps; isAuthenticated only in the three authentication continuations; '
-            'every disconnect path clears isAuthenticated and retries or closes the session, which clears, notifies and emits on every path; each new stream resets the listener.',
+            'every disconnect path clears isAuthenticated and retries or closes the session, which clears, notifies and emits on every path; each new stream resets the listener. A deliberate disconnect informs the stream manager before the socket is closed; stream-management session counters are accepted when the reset branch of enableStreamManagement zeroes them.',
             'That a following attempt succeeds, at-most-once per connection under arbitrary server scripts and behaviour at each cut point are history properties over the network: not decided.', 'DESIGN.md §2 C10'),
     'C13': ('dominance / control-dependence rules on every instantiation of QXmppPromise<T>::finish (77) and QXmppTask<T>::then (70) found in the library units, plus who-may-call on the shared record',
             'Static, at the level of the primitive\'s code shape: the continuation is invoked only behind continuation() && isContextAlive(); setFinished(true) dominates everything; the value is stored exactly on the no-continuation edge; '
             'a late then() runs the functor only behind isFinished() && hasResult(), with the stored value, and resets it on the same path; the registered wrapper checks the context and clears itself on every path; the shared record frees values; '
-            'only the promise/task templates touch it. Template code is analysed through all its instantiations, so a per-specialisation slip (e.g. only the void overload) is seen.',
+            'only the promise/task templates touch it. Template code is analysed through all its instantiations, so a per-specialisation slip (e.g. only the void overload) is seen. The continuation stored by then() does not capture the shared record, and the members of the record are written only by their setters.',
             'The full interleaving semantics (re-entrancy from inside a continuation, copies dropped in every order, leak-freedom) need model checking or sanitizers: not decided.', 'DESIGN.md §2 C13'),
     'C14': ('table extraction and comparison of the encoder and decoder (attribute types, fixed lengths, padding), abstract evaluation of the integrity/fingerprint arms, flag-sensitive exploration of the keyed decode, wire-length taint rule, recomputation of the CRC table from its polynomial',
             'Static: the 25 attribute types written by encode() each have a decoder arm with the same fixed length, variable-length values are padded; a wrong HMAC (under a key) or CRC makes decode() return false; encode and decode patch the length with the same +24/+8 and use the same fingerprint mask; '
             'after MESSAGE-INTEGRITY only FINGERPRINT is processed; under a non-empty key no path returns true without having passed the HMAC comparison (found and fixed); wire lengths are bounded by type or a dominating check and the loop advances; '
-            'crctable equals the table generated from 0xEDB88320; the HMAC helper hashes long keys (found and fixed). No value buffer is sized by an attribute length that exceeds the rest of the message; MESSAGE-INTEGRITY and FINGERPRINT are compared in full (never as C strings or prefixes).',
+            'crctable equals the table generated from 0xEDB88320; the HMAC helper hashes long keys (found and fixed). No value buffer is sized by an attribute length that exceeds the rest of the message; MESSAGE-INTEGRITY and FINGERPRINT are compared in full (never as C strings or prefixes). Opaque byte attributes are written raw; the address family written is the protocol() of the address.',
             'That HMAC/CRC outputs equal the RFC values for all inputs, decode∘encode = id at value level and "no crash for arbitrary bytes" beyond the length rule are numerical/runtime claims: not decided.', 'DESIGN.md §2 C14'),
     'C15': ('enumeration of all connectivity-state-changing atoms of the ICE datagram handler (field writes, calls) and abstract evaluation under "decode fails" / "no session password" (sink reachability), plus the flag-sensitive keyed-decode exploration shared with C14',
             'Static, safety half: the 10 state-changing atoms of handleDatagram (learn candidate, create/nominate pair, triggered check, feed transaction, select active pair, connected(), binding response) are unreachable when the keyed decode fails and when no session password is set; '
-            'the password is chosen by message class symmetrically to the sender and is the decode key; a keyed decode cannot succeed without a verified MESSAGE-INTEGRITY; responses reach their transaction only after id and source-address match; activePair/connected only under pair->nominated. An authenticated USE-CANDIDATE request is honoured for every state of its pair (nominated at once, nominating while a check is pending, or a nominating check is started).',
+            'the password is chosen by message class symmetrically to the sender and is the decode key; a keyed decode cannot succeed without a verified MESSAGE-INTEGRITY; responses reach their transaction only after id and source-address match; activePair/connected only under pair->nominated. An authenticated USE-CANDIDATE request is honoured for every state of its pair (nominated at once, nominating while a check is pending, or a nominating check is started). The MAC comparison the handler relies on is complete (value chain of both operands), and every datagram is delivered with its own length.',
             'Liveness (two honest agents connect, under loss), candidate/pair priority values and datagram pass-through are schedule/numeric claims: not decided.', 'DESIGN.md §2 C15'),
     'C18': ('abstract evaluation of the trust-message decision code for all 8 combinations of (own account, key owner, sender key authenticated) with operand identity checks, closed call-structure (who-may-call) rules around authenticate/setTrustLevel(Authenticated), promise typestate',
             'Static: in the decision continuation the apply-sets are reachable exactly for qualified ∧ authenticated, the postponed list exactly for qualified ∧ ¬authenticated, nothing otherwise (exhaustive over the 8 combinations); the three tests compare the sender\'s bare JID with the own bare JID / key owner JID and the trust level delivered for (encryption, sender, e2ee sender key) with Authenticated; '
@@ -104,12 +104,12 @@ TABLE = {
             'Conformance to the XEP-0450 reference model over all histories of decisions, and the correctness of the storage back-ends, are not decided.', 'DESIGN.md §2 C18'),
     'C19': ('type-width agreement between the wire field and the per-job counters (record facts), abstract evaluation of the receiving handlers and of the final verdict under hostile inputs, who-may-declare-success call-structure rule',
             'Static: the IBB block counter, the receiver\'s expectation and QXmppIbbDataIq::m_seq have the same unsigned 16-bit type (so both sides wrap at 65536); in ibbDataIqReceived a block is written and the expectation advanced only for a job found by (sender, session id) in transfer state with the expected sequence number, rejected blocks get an error reply; the open handler bounds the block size; the close handler and the SOCKS5 paths delegate the verdict to checkData(); '
-            'checkData() cannot reach terminate(NoError) when a size was announced and differs or a hash was announced and differs; writeData counts the bytes the device accepted and hashes the same buffer.',
+            'checkData() cannot reach terminate(NoError) when a size was announced and differs or a hash was announced and differs; writeData counts the bytes the device accepted and hashes the same buffer. The SOCKS5 receive slot drains the socket; an announced size of 0 (unknown) never enters arithmetic or comparisons unguarded.',
             'Byte-for-byte equality of delivered and sent content for all sizes and loss patterns, and detection of corruption when the offer carries neither size nor hash, are not decided.', 'DESIGN.md §2 C19'),
     'C20': ('sort-before-use dataflow with comparator classification (i;octet), exhaustive abstract evaluation of the identity comparator over the 81 orderings of its four keys, separator typestate over all paths of verificationString, one-source and recompute-at-emission call-structure rules',
             'Static: in verificationString every loop that appends to the hashed string iterates a local copy sorted after its last mutation with a UTF-8 byte-order comparator; features are de-duplicated; multi-values are sorted before join("<"); '
             'the identity comparator returns the strict lexicographic order on (category, type, xml:lang, name) for all 81 orderings and the hashed identity string uses the same accessors in that order; every piece is terminated by "<" on every path; FORM_TYPE is taken out of the map and hashed first; SHA-1 over UTF-8, presence says sha-1; '
-            'the advertised ver and the disco#info answer both derive from QXmppDiscoveryManager::capabilities() (answer modified only by setQueryNode), ver is only set by addProperCapability, which precedes every emission of the available client presence.',
+            'the advertised ver and the disco#info answer both derive from QXmppDiscoveryManager::capabilities() (answer modified only by setQueryNode), ver is only set by addProperCapability, which precedes every emission of the available client presence. Every multi-valued data form field type reaches the sorted join.',
             'Equality with an independent XEP-0115 implementation for all inputs (values containing "<", duplicate keys, several forms) and staleness after addExtension() on a live session without a new presence are not decided.', 'DESIGN.md §2 C20'),
 }
 
